@@ -22,6 +22,7 @@ func checkC07(c *Ctx) {
 	checkC07Cache(c)
 	checkC07ForeignMap(c)
 	checkC07FieldMeta(c)
+	checkC07FieldClosures(c)
 	checkC07Globals(c)
 	checkC07Callbacks(c)
 	checkC06Recv(c, c.Rule("C07.immutability-recv", "exported *DB methods never write through their receiver (shared by all goroutines using the handle)", 55))
